@@ -150,7 +150,7 @@ theorem handle_of_letter (f : Frame) : HandleSpec f := by
           by_cases h6 : s = "error"
           · subst h6
             rcases hp : J.lookup "payload" kvs with _ | p
-            · simp [HandleSpec, letter, handle, handle.dispatch, typeCheck, ht, proto, hp, errorOf]
+            · simp [HandleSpec, letter, handle, handle.dispatch, typeCheck, ht, proto, hp, errorOf, msgOf]
             · cases p with
               | arr es =>
                 by_cases hs : es.all errShaped = true
